@@ -7,6 +7,7 @@ import (
 	"math/big"
 	"os/exec"
 	"strings"
+	"sync/atomic"
 	"time"
 )
 
@@ -22,21 +23,23 @@ func (r SatResult) String() string { return [...]string{"unsat", "sat", "unknown
 
 // Solver is one long-lived SMT solver process fed over a pipe.
 type Solver struct {
-	Name    string
-	cmd     *exec.Cmd
-	in      io.WriteCloser
-	out     *bufio.Reader
-	emitted map[int32]bool
-	emittedUF map[string]bool
-	st      *Store
-	Queries int
-	Time    time.Duration
+	Name                   string
+	cmd                    *exec.Cmd
+	in                     io.WriteCloser
+	out                    *bufio.Reader
+	emitted                map[int32]bool
+	emittedUF              map[string]bool
+	st                     *Store
+	Queries                int
+	Time                   time.Duration
 	NSat, NUnsat, NUnknown int
-	timeoutMs int
-	Log     io.Writer
-	dead    bool
-	axiomsSent int
-	Errors    int
+	timeoutMs              int
+	Log                    io.Writer
+	dead                   bool
+	axiomsSent             int
+	Errors                 int
+	watchdog               int32 // set when the hard wall-clock limit killed the process
+	Killed                 int
 }
 
 func solverArgv(name string, timeoutMs int) []string {
@@ -54,26 +57,39 @@ func solverArgv(name string, timeoutMs int) []string {
 }
 
 func NewSolver(name string, st *Store, timeoutMs int) (*Solver, error) {
-	argv := solverArgv(name, timeoutMs)
+	s := &Solver{Name: name, st: st, timeoutMs: timeoutMs}
+	if err := s.spawn(); err != nil {
+		return nil, err
+	}
+	return s, nil
+}
+
+// spawn starts (or restarts) the solver process with an empty context.
+func (s *Solver) spawn() error {
+	argv := solverArgv(s.Name, s.timeoutMs)
 	cmd := exec.Command(argv[0], argv[1:]...)
 	in, err := cmd.StdinPipe()
 	if err != nil {
-		return nil, err
+		return err
 	}
 	outp, err := cmd.StdoutPipe()
 	if err != nil {
-		return nil, err
+		return err
 	}
 	cmd.Stderr = nil
 	if err := cmd.Start(); err != nil {
-		return nil, err
+		return err
 	}
-	s := &Solver{Name: name, cmd: cmd, in: in, out: bufio.NewReaderSize(outp, 1<<20), emitted: map[int32]bool{}, emittedUF: map[string]bool{}, st: st, timeoutMs: timeoutMs}
-	if strings.HasPrefix(name, "cvc5") {
+	s.cmd, s.in, s.out = cmd, in, bufio.NewReaderSize(outp, 1<<20)
+	s.emitted, s.emittedUF = map[int32]bool{}, map[string]bool{}
+	s.axiomsSent = 0
+	s.dead = false
+	atomic.StoreInt32(&s.watchdog, 0)
+	if strings.HasPrefix(s.Name, "cvc5") {
 		s.send("(set-logic ALL)\n")
 	}
 	s.send("(set-option :produce-models true)\n")
-	return s, nil
+	return nil
 }
 
 func (s *Solver) Close() {
@@ -168,13 +184,35 @@ func (s *Solver) Check(conds []*Term, wantModel bool, vars []*Term) (SatResult, 
 		fmt.Fprintf(&b, "(assert %s)\n", c.ref())
 	}
 	b.WriteString("(check-sat)\n(echo \"DONE-CHECK\")\n")
+	// hard wall-clock limit: the solvers' own soft timeouts are not always
+	// honoured (z3 4.8.12 inside FP/bit-blasting preprocessing); a killed
+	// query is an "unknown", never a success.
+	cmd := s.cmd
+	hard := time.Duration(s.timeoutMs)*time.Millisecond*3/2 + 5*time.Second
+	timer := time.AfterFunc(hard, func() {
+		atomic.StoreInt32(&s.watchdog, 1)
+		cmd.Process.Kill()
+	})
 	s.send(b.String())
 	res := s.readResult()
 	var m Model
-	if res == Sat && wantModel && len(vars) > 0 {
+	if res == Sat && wantModel && len(vars) > 0 && !s.dead {
 		m = s.getValues(vars)
+		if s.dead {
+			res, m = Unknown, nil
+		}
 	}
-	s.send("(pop 1)\n")
+	timer.Stop()
+	if atomic.LoadInt32(&s.watchdog) == 1 {
+		cmd.Wait()
+		s.Killed++
+		res, m = Unknown, nil
+		if err := s.spawn(); err != nil {
+			s.dead = true
+		}
+	} else if !s.dead {
+		s.send("(pop 1)\n")
+	}
 	s.Queries++
 	s.Time += time.Since(t0)
 	switch res {
